@@ -196,41 +196,6 @@ def inst_unify(spec, policy, hi=None, with_limit=True):
                     timeout_ms=30000)
 
 
-def inst_unify_unknown_axis(policy):
-    """two operands over 'ij' whose axis j has two blocks of unknown (nan) size each -- the same layout, spelled with different
-    nan objects, as two expressions derived from one boolean selection are -- and whose axis i carries the same symbolic
-    chunks: they are aligned already; unification must leave both alone (no rechunk can be planned on unknown sizes)"""
-    def body(E):
-        import dask_array.io._from_array as FAm
-
-        w = W(E, policy, None)
-        c = tuple(E.int(f"c{i}", 1) for i in range(2))
-        ops = []
-        for k in range(2):
-            chunks = (c, (float("nan"), float("nan")))
-            meta = np.empty((0, 0), dtype="i8")
-            ops.append(w.space.make(FAm.FromArray, leaf(f"a{k}", (sum(c), 1), itemsize=8), chunks, _symx_attrs=dict(_meta=meta, chunks=chunks, _name=f"a{k}")))
-        chunkss, arrays, changed = w.fn(EX, "unify_chunks_expr")(ops[0], "ij", ops[1], "ij")
-        E.ensure("already-aligned-operands-are-left-alone", (not changed) and all(new is old for new, old in zip(arrays, ops)))
-
-    def api(values):
-        import dask
-        import dask_array as da
-
-        with dask.config.set({"array.unify-chunks-policy": policy}):
-            x = da.from_array(np.arange(2), chunks=2)
-            idx = da.from_array(np.array([1, 0]), chunks=1)
-            x[idx] = np.array([-1, -2])
-            try:
-                got = x.compute(scheduler="sync")
-            except ValueError as ex:
-                return dict(ok=False, detail=f"x[idx] = [-1, -2] with idx an integer dask array of two chunks: ValueError {str(ex)[:80]}")
-            return dict(ok=got.tolist() == [-2, -1], detail=f"got {got.tolist()}")
-
-    return Instance(f"unify_chunks_expr[aligned operands with an unknown-size axis,policy={policy}]", body, dict(policy=policy),
-                    unit="unify_chunks_expr", api_replay=api)
-
-
 def inst_common_blockdim(ms, fn="common_blockdim"):
     """finest common refinement (common_blockdim) / coarse_blockdim: result is a layout of the axis whose boundary set
     is the union (common) or, when nested, the coarsest operand's (coarse)."""
@@ -290,9 +255,6 @@ def instances(tier):
     I = ("i",)
     for policy in ("refine", "coarse", "auto"):
         hi = 6 if policy == "auto" else None
-        if policy == "refine":
-            # (auto / coarse weigh layouts by arithmetic on the sizes: nan next to symbolic sizes is outside the real model)
-            out.append(inst_unify_unknown_axis(policy))
         out.append(inst_unify([(I, (2,), 8), (I, (2,), 8)], policy, hi))
         out.append(inst_unify([(I, (2,), 8), (I, (3,), 4)], policy, hi))
         out.append(inst_unify([(I, (3,), 4), (I, (2,), 8)], policy, hi))
